@@ -193,6 +193,17 @@ PROPS = {
                         "panics inside dependencies on well-typed arguments are out of scope", "unwinding allocation failure is out of scope"],
         "technique": "static analysis: call-graph reachability + panic-site enumeration over MIR with CFG guard idioms; grammar nullability",
     },
+    "C20": {
+        "module": "c20",
+        "explanation": "R13L: the panic-site audit of C04 with the server's entry points (run_server, main_loop, handle_request, "
+                       "handle_notification, analyze, the workspace index). R40: one Response on every Ok path of each of the five request "
+                       "branches. R41: documents[uri] is replaced by analyze(content argument, workspace cache) and written by nothing "
+                       "else; analyze cannot see the documents map. R42: analyze uses the compiler's tokenize and parse, exactly one "
+                       "diagnostic per front-end error from the error's own position. R89: provenance of everything written into the "
+                       "workspace cache. Not decided: range containment (UTF-16 vs byte columns), equality of diagnostics with a fresh "
+                       "server as values, messages with malformed parameters (they end the server with an error, outside the quantifier).",
+        "assumptions": ["lsp-server / lsp-types / serde_json do not panic on well-formed messages"],
+    },
 }
 
 
